@@ -144,7 +144,7 @@ pub fn dense_cases() -> Vec<AnyRule> {
         }
     }
     for ctrl in [hotspot::ControlStrategy::Reject, hotspot::ControlStrategy::Throttling] {
-        for duration in [1u64, 2, 3, 7, 60, 3600, 1 << 40] {
+        for duration in [1u64, 2, 3, 7, 60, 3600, 1 << 40, u64::MAX / 4000 + 1, u64::MAX / 1000, u64::MAX] {
             for threshold in [1u64, 2, 3, 7, 999, 1000, 1001, 1_000_000, u64::MAX / 2000, u64::MAX] {
                 for burst in [0u64, 1, u64::MAX / 2] {
                     v.push(AnyRule::Hs(hotspot::Rule { id: format!("hd{}", v.len()), resource: RES.into(), metric_type: hotspot::MetricType::QPS, control_strategy: ctrl, threshold, burst_count: burst, duration_in_sec: duration, max_queueing_time_ms: 5, ..Default::default() }));
